@@ -58,6 +58,15 @@ type c20File struct {
 	RuleLists [][2]any `json:"rule_lists"`
 }
 
+// members returns the declared keys of a union (rule entry) struct
+func (f *c20File) members(def int) []string {
+	var out []string
+	for _, fl := range f.LEnv[def].Fields {
+		out = append(out, fl.Key)
+	}
+	return out
+}
+
 type c20Facts struct {
 	Keys  []string  `json:"keys"`
 	Files []c20File `json:"files"`
@@ -87,31 +96,31 @@ func (f *c20File) isUnion(def int) bool {
 // ---- document trees ----------------------------------------------------------------------
 
 const (
-	yNull = iota
-	yScalar
-	ySeq
-	yMap
+	c20KNull = iota
+	c20KScalar
+	c20KSeq
+	c20KMap
 )
 
-type ynode struct {
+type c20Node struct {
 	kind  int
 	sval  any
 	keys  []string
-	vals  []*ynode
-	items []*ynode
+	vals  []*c20Node
+	items []*c20Node
 	rec   bool // mapping decoded into a Go struct (closed set of keys)
 	def   int  // index of that struct
 	flow  bool
 }
 
-func (n *ynode) clone() *ynode {
+func (n *c20Node) clone() *c20Node {
 	c := *n
 	c.keys = append([]string(nil), n.keys...)
-	c.vals = make([]*ynode, len(n.vals))
+	c.vals = make([]*c20Node, len(n.vals))
 	for i, v := range n.vals {
 		c.vals[i] = v.clone()
 	}
-	c.items = make([]*ynode, len(n.items))
+	c.items = make([]*c20Node, len(n.items))
 	for i, v := range n.items {
 		c.items[i] = v.clone()
 	}
@@ -119,20 +128,20 @@ func (n *ynode) clone() *ynode {
 }
 
 // tokens renders the tree in the Lean evaluator's request syntax.
-func (n *ynode) tokens(sb *strings.Builder) {
+func (n *c20Node) tokens(sb *strings.Builder) {
 	switch n.kind {
-	case yNull:
+	case c20KNull:
 		sb.WriteString("n")
-	case yScalar:
+	case c20KScalar:
 		sb.WriteString("s")
-	case ySeq:
+	case c20KSeq:
 		sb.WriteString("[")
 		for _, it := range n.items {
 			sb.WriteString(" ")
 			it.tokens(sb)
 		}
 		sb.WriteString(" ]")
-	case yMap:
+	case c20KMap:
 		sb.WriteString("{")
 		for i, k := range n.keys {
 			sb.WriteString(" " + k + " ")
@@ -142,17 +151,17 @@ func (n *ynode) tokens(sb *strings.Builder) {
 	}
 }
 
-func (n *ynode) toYAML() *yaml.Node {
+func (n *c20Node) toYAML() *yaml.Node {
 	switch n.kind {
-	case yNull:
+	case c20KNull:
 		return &yaml.Node{Kind: yaml.ScalarNode, Tag: "!!null", Value: "~"}
-	case yScalar:
+	case c20KScalar:
 		var out yaml.Node
 		if err := out.Encode(n.sval); err != nil {
 			panic(err)
 		}
 		return &out
-	case ySeq:
+	case c20KSeq:
 		out := &yaml.Node{Kind: yaml.SequenceNode, Tag: "!!seq"}
 		if n.flow {
 			out.Style = yaml.FlowStyle
@@ -172,7 +181,7 @@ func (n *ynode) toYAML() *yaml.Node {
 	return out
 }
 
-func (n *ynode) render() []byte {
+func (n *c20Node) render() []byte {
 	out, err := yaml.Marshal(n.toYAML())
 	if err != nil {
 		panic(err)
@@ -181,19 +190,19 @@ func (n *ynode) render() []byte {
 }
 
 // mapping nodes in pre-order, each with its path (for reports)
-type ymapRef struct {
-	node *ynode
+type c20MapRef struct {
+	node *c20Node
 	path string
 }
 
-func (n *ynode) mappings(path string, out *[]ymapRef) {
+func (n *c20Node) mappings(path string, out *[]c20MapRef) {
 	switch n.kind {
-	case yMap:
-		*out = append(*out, ymapRef{n, path})
+	case c20KMap:
+		*out = append(*out, c20MapRef{n, path})
 		for i, k := range n.keys {
 			n.vals[i].mappings(path+"/"+k, out)
 		}
-	case ySeq:
+	case c20KSeq:
 		for i, it := range n.items {
 			it.mappings(fmt.Sprintf("%s/%d", path, i), out)
 		}
@@ -225,48 +234,48 @@ func c20String(key string) string {
 
 var c20Forced = map[string]bool{"package": true, "by_name": true}
 
-func (g *c20Gen) gen(t c20LTy, depth int, key string) *ynode {
+func (g *c20Gen) gen(t c20LTy, depth int, key string) *c20Node {
 	g.kinds[t.K]++
 	switch t.K {
 	case "scalar":
 		switch t.Go {
 		case "bool":
-			return &ynode{kind: yScalar, sval: g.r.chance(50)}
+			return &c20Node{kind: c20KScalar, sval: g.r.chance(50)}
 		case "int", "uint":
-			return &ynode{kind: yScalar, sval: g.r.intn(4)}
+			return &c20Node{kind: c20KScalar, sval: g.r.intn(4)}
 		case "float":
-			return &ynode{kind: yScalar, sval: 1.5}
+			return &c20Node{kind: c20KScalar, sval: 1.5}
 		}
-		return &ynode{kind: yScalar, sval: c20String(key)}
+		return &c20Node{kind: c20KScalar, sval: c20String(key)}
 	case "any":
 		switch g.r.intn(5) {
 		case 0:
-			return &ynode{kind: yScalar, sval: "v"}
+			return &c20Node{kind: c20KScalar, sval: "v"}
 		case 1:
-			return &ynode{kind: yScalar, sval: g.r.intn(9)}
+			return &c20Node{kind: c20KScalar, sval: g.r.intn(9)}
 		case 2:
-			return &ynode{kind: ySeq, items: []*ynode{{kind: yScalar, sval: "a"}}, flow: true}
+			return &c20Node{kind: c20KSeq, items: []*c20Node{{kind: c20KScalar, sval: "a"}}, flow: true}
 		case 3:
 			// free-form mapping below an `any`: arbitrary keys are fine there
 			g.kinds["any-mapping"]++
-			return &ynode{kind: yMap, keys: []string{"free_key", "kind"}, vals: []*ynode{{kind: yScalar, sval: 1}, {kind: yMap, keys: []string{"nested_free"}, vals: []*ynode{{kind: yNull}}}}}
+			return &c20Node{kind: c20KMap, keys: []string{"free_key", "kind"}, vals: []*c20Node{{kind: c20KScalar, sval: 1}, {kind: c20KMap, keys: []string{"nested_free"}, vals: []*c20Node{{kind: c20KNull}}}}}
 		}
 		if g.nulls {
-			return &ynode{kind: yNull}
+			return &c20Node{kind: c20KNull}
 		}
-		return &ynode{kind: yScalar, sval: true}
+		return &c20Node{kind: c20KScalar, sval: true}
 	case "list":
 		n := g.r.intn(3)
 		if depth >= g.maxDepth {
 			n = g.r.intn(2)
 		}
-		out := &ynode{kind: ySeq, flow: t.Elem.K == "scalar" && g.r.chance(40)}
+		out := &c20Node{kind: c20KSeq, flow: t.Elem.K == "scalar" && g.r.chance(40)}
 		for i := 0; i < n; i++ {
 			out.items = append(out.items, g.gen(*t.Elem, depth+1, key))
 		}
 		return out
 	case "fmap":
-		out := &ynode{kind: yMap}
+		out := &c20Node{kind: c20KMap}
 		n := g.r.intn(3)
 		for i := 0; i < n; i++ {
 			k := fmt.Sprintf("k%d", i)
@@ -283,9 +292,9 @@ func (g *c20Gen) gen(t c20LTy, depth int, key string) *ynode {
 	panic("c20: unknown lty kind " + t.K)
 }
 
-func (g *c20Gen) record(def, depth int) *ynode {
+func (g *c20Gen) record(def, depth int) *c20Node {
 	d := g.f.LEnv[def]
-	out := &ynode{kind: yMap, rec: true, def: def}
+	out := &c20Node{kind: c20KMap, rec: true, def: def}
 	if g.r.chance(8) && depth > 0 {
 		out.flow = true
 	}
@@ -336,7 +345,7 @@ func (g *c20Gen) record(def, depth int) *ynode {
 		// an explicit null is a legal value for every key
 		if g.nulls && g.r.chance(6) && !c20Forced[c.key] {
 			out.keys = append(out.keys, c.key)
-			out.vals = append(out.vals, &ynode{kind: yNull})
+			out.vals = append(out.vals, &c20Node{kind: c20KNull})
 			continue
 		}
 		out.keys = append(out.keys, c.key)
@@ -346,31 +355,31 @@ func (g *c20Gen) record(def, depth int) *ynode {
 }
 
 // minimal value of a type (used by the exhaustive key-path stream)
-func c20Minimal(t c20LTy, key string) *ynode {
+func c20Minimal(t c20LTy, key string) *c20Node {
 	switch t.K {
 	case "scalar":
 		switch t.Go {
 		case "bool":
-			return &ynode{kind: yScalar, sval: true}
+			return &c20Node{kind: c20KScalar, sval: true}
 		case "int", "uint":
-			return &ynode{kind: yScalar, sval: 1}
+			return &c20Node{kind: c20KScalar, sval: 1}
 		case "float":
-			return &ynode{kind: yScalar, sval: 1.5}
+			return &c20Node{kind: c20KScalar, sval: 1.5}
 		}
-		return &ynode{kind: yScalar, sval: c20String(key)}
+		return &c20Node{kind: c20KScalar, sval: c20String(key)}
 	case "any":
-		return &ynode{kind: yScalar, sval: "v"}
+		return &c20Node{kind: c20KScalar, sval: "v"}
 	case "list":
-		return &ynode{kind: ySeq}
+		return &c20Node{kind: c20KSeq}
 	case "fmap":
-		return &ynode{kind: yMap}
+		return &c20Node{kind: c20KMap}
 	}
-	return &ynode{kind: yMap, rec: true, def: t.Ref}
+	return &c20Node{kind: c20KMap, rec: true, def: t.Ref}
 }
 
 // c20PathTo computes, for every struct reachable from the root, a minimal document containing
 // one instance of it: returns the document root and the instance node.
-func c20PathTo(f *c20File, target int) (*ynode, *ynode) {
+func c20PathTo(f *c20File, target int) (*c20Node, *c20Node) {
 	type step struct {
 		def int
 		key string
@@ -401,7 +410,7 @@ func c20PathTo(f *c20File, target int) (*ynode, *ynode) {
 	for d := target; d != f.LRoot; d = prev[d].def {
 		chain = append([]step{{prev[d].def, prev[d].key}}, chain...)
 	}
-	root := &ynode{kind: yMap, rec: true, def: f.LRoot}
+	root := &c20Node{kind: c20KMap, rec: true, def: f.LRoot}
 	cur := root
 	for i, st := range chain {
 		next := target
@@ -414,15 +423,15 @@ func c20PathTo(f *c20File, target int) (*ynode, *ynode) {
 				ty = fl.Ty
 			}
 		}
-		child := &ynode{kind: yMap, rec: true, def: next}
+		child := &c20Node{kind: c20KMap, rec: true, def: next}
 		// wrap the child according to the field's type: list → [child], fmap → {k0: child}
-		var wrap func(t c20LTy) *ynode
-		wrap = func(t c20LTy) *ynode {
+		var wrap func(t c20LTy) *c20Node
+		wrap = func(t c20LTy) *c20Node {
 			switch t.K {
 			case "list":
-				return &ynode{kind: ySeq, items: []*ynode{wrap(*t.Elem)}}
+				return &c20Node{kind: c20KSeq, items: []*c20Node{wrap(*t.Elem)}}
 			case "fmap":
-				return &ynode{kind: yMap, keys: []string{"k0"}, vals: []*ynode{wrap(*t.Elem)}}
+				return &c20Node{kind: c20KMap, keys: []string{"k0"}, vals: []*c20Node{wrap(*t.Elem)}}
 			}
 			return child
 		}
